@@ -55,7 +55,7 @@ Proof.
   intros C E. unfold remove_ns_disconnecting in E.
   apply bind_ok in E. destruct E as [ifs [s1 [E1 E]]]. apply get_ok in E1. destruct E1 as [-> ->].
   apply bind_ok in E. destruct E as [[] [s1 [E1 E]]].
-  pose proof (cons_to _ _ _ _ (Inv_for_each_set _ _ Inv_disconnect_peers_of) C E1) as C1.
+  pose proof (cons_to _ _ _ _ (Inv_for_each_set _ _ Inv_disconnect_step) C E1) as C1.
   apply (del_remove_ns n s1 s' C1 E).
 Qed.
 
@@ -102,17 +102,17 @@ Qed.
 
 Lemma Inv_node_tail nm n :
   Inv (bind (m_get (fun g => disc_list g (node_interface_list g n))) (fun ifs =>
-       bind (for_each_set disconnect_peers_of ifs) (fun _ =>
+       bind (for_each_set disconnect_step ifs) (fun _ =>
        bind (m_get (fun g => by_name g CNode nm)) (fun all =>
        bind (uniq all EQuery EQuery) (fun n' => remove_node_graph n'))))).
 Proof.
-  repeat first [apply Inv_disconnect_peers_of | apply Inv_remove_node_graph | inv_step].
+  repeat first [apply Inv_disconnect_step | apply Inv_remove_node_graph | inv_step].
 Qed.
 
 Lemma del_node_tail nm n s s' x :
   cons g0 s ->
   bind (m_get (fun g => disc_list g (node_interface_list g n))) (fun ifs =>
-  bind (for_each_set disconnect_peers_of ifs) (fun _ =>
+  bind (for_each_set disconnect_step ifs) (fun _ =>
   bind (m_get (fun g => by_name g CNode nm)) (fun all =>
   bind (uniq all EQuery EQuery) (fun n' => remove_node_graph n')))) s = (inl tt, s') ->
   In x (by_name g0 CNode nm) -> In x (snd s').
@@ -120,7 +120,7 @@ Proof.
   intros C E Hx.
   apply bind_ok in E. destruct E as [ifs [s1 [E1 E]]]. apply get_ok in E1. destruct E1 as [-> ->].
   apply bind_ok in E. destruct E as [[] [s1 [E1 E]]].
-  pose proof (cons_to _ _ _ _ (Inv_for_each_set _ _ Inv_disconnect_peers_of) C E1) as C1.
+  pose proof (cons_to _ _ _ _ (Inv_for_each_set _ _ Inv_disconnect_step) C E1) as C1.
   apply (del_by_name_tail CNode nm remove_node_graph s1 s' x Inv_remove_node_graph del_remove_node_graph C1 E Hx).
 Qed.
 
@@ -161,10 +161,14 @@ Proof.
     apply (del_node_tail g name n2 _ _ x C0 E Hx).
   - (* remove_link *)
     apply then_ret_ok in E. destruct E as [[] E]. unfold api_remove_link in E.
-    refine (del_by_name_tail g CLink name remove_link_graph (g, []) (g', tr) x Inv_remove_link_graph _ C0 E Hx).
-    intros n t t' Ct Et. unfold remove_link_graph in Et.
-    apply bind_ok in Et. destruct Et as [[] [t1 [Et1 Et]]]. apply need_class_ok in Et1. destruct Et1 as [_ [_ ->]].
-    apply delete_ok in Et. destruct Et as [_ ->]. left. reflexivity.
+    apply bind_ok in E. destruct E as [all [s1 [E1 E]]]. apply get_ok in E1. destruct E1 as [-> ->].
+    apply bind_ok in E. destruct E as [n [s1 [E1 E]]]. apply uniq_ok in E1. destruct E1 as [Hall ->].
+    apply bind_ok in E. destruct E as [sp [s1 [E1 E]]]. apply get_ok in E1. destruct E1 as [-> ->].
+    apply bind_ok in E. destruct E as [[] [s1 [E1 E]]]. apply guard_ok in E1. destruct E1 as [_ ->].
+    simpl in Hall. rewrite Hall in Hx. destruct Hx as [<-|[]].
+    unfold remove_link_graph in E.
+    apply bind_ok in E. destruct E as [[] [t1 [Et1 E]]]. apply need_class_ok in Et1. destruct Et1 as [_ [_ ->]].
+    apply delete_ok in E. destruct E as [_ E]. inversion E. left. reflexivity.
   - (* remove_network_service *)
     apply then_ret_ok in E. destruct E as [[] E]. unfold api_remove_ns_topo in E.
     exact (del_by_name_tail g CNS name remove_ns_disconnecting (g, []) (g', tr) x Inv_remove_ns_disconnecting (del_remove_ns_disconnecting g) C0 E Hx).
@@ -175,7 +179,7 @@ Proof.
     apply bind_ok in E. destruct E as [c [s1 [E1 E]]]. apply uniq_ok in E1. destruct E1 as [Hc ->].
     apply bind_ok in E. destruct E as [ifs [s1 [E1 E]]]. apply get_ok in E1. destruct E1 as [-> ->].
     apply bind_ok in E. destruct E as [[] [s1 [E1 E]]].
-    pose proof (cons_to g _ _ _ _ (Inv_for_each_set _ _ Inv_disconnect_peers_of) C0 E1) as C1.
+    pose proof (cons_to g _ _ _ _ (Inv_for_each_set _ _ Inv_disconnect_step) C0 E1) as C1.
     simpl in Hc. destruct Hx as [Hx1 Hx2].
     assert (Hxc : In x (child_by_name g (first_neighbor g n RHas CComp) cname)).
     { unfold child_by_name. apply filter_In. split; [exact Hx1 | apply N.eqb_eq; exact Hx2]. }
